@@ -1326,7 +1326,9 @@ Definition c_lmove (a : list cval) : bool :=
   end.
 Definition c_eval (a : list cval) : bool :=
   match a with
-  | [s; VL ks; VL vs] => wf_val KStr s && forallb (wf_val KStr) ks && forallb (wf_val KSds) vs
+  | [s; VL ks; VL vs] =>
+      wf_val KStr s && forallb (wf_val KStr) ks && forallb (wf_val KSds) vs
+      && (Z.of_nat (List.length ks) <=? I64_MAX)%Z
   | _ => false
   end.
 Definition c_optional (k : kind) (a : list cval) : bool :=
@@ -1402,3 +1404,65 @@ Definition unparse_k (k : bytes -> bytes) (c : cmd) : option (list bytes) :=
   end.
 Definition unparse (c : cmd) : option (list bytes) := unparse_k (fun w => w) c.
 
+(* ------------------------------------------------------------------ predicates used in the statements of Props/C16.v *)
+Definition names {A} (t : list (bytes * A)) : list bytes := map fst t.
+
+Fixpoint nodupb (l : list bytes) : bool :=
+  match l with
+  | [] => true
+  | x :: r => negb (existsb (bytes_eqb x) r) && nodupb r
+  end.
+
+Definition parses (f : option (list relem)) (r : presult) : Prop :=
+  match f with
+  | Some (EBulk n :: args) =>
+      (exists rl, In (ustr n, rl) grammar /\ r = run_rule rl args)
+      \/ (~ In (ustr n) (names grammar) /\ r = unknown_cmd (ustr n))
+  | _ => r = PErr E_FORMAT
+  end.
+
+Definition ascii (b : bytes) : Prop := Forall (fun x => (x < 128)%N) b.
+
+Definition case_variant (a b : bytes) : Prop := Forall2 (fun x y => up1 x = up1 y) a b.
+
+Definition text_ok (s : bytes) : bool := bytes_eqb (lossy s) s && bytes_eqb (sanitize s) s.
+
+(* [a]: is a nil bulk allowed (inside arrays) *)
+Fixpoint inner_ok_with (a : bool) (r : resp) : bool :=
+  match r with
+  | RSimple_ s | RError s => text_ok s
+  | RInt _ => true
+  | RBulk (Some _) => true
+  | RBulk None => a
+  | RArr None => false
+  | RArr (Some l) =>
+      (fix all (l : list resp) : bool :=
+         match l with [] => true | x :: t => inner_ok_with a x && all t end) l
+  end.
+Definition conv_ok (r : resp) : bool :=
+  match r with RBulk None => true | _ => inner_ok_with false r end.
+Definition conv_ok_redis (r : resp) : bool := inner_ok_with true r.
+
+Definition lower_kw (w : bytes) : bytes := if forallb (fun x => (x <? 128)%N) w then map low1 w else w.
+
+(* both entry paths run the same executor on the same parsed command *)
+Section Script.
+  Variable state : Type.
+  Variable exec : state -> cmd -> state * resp.
+  Definition conv (r : resp) : resp := lua_to_resp (resp_to_lua r).
+  Definition err_reply (t : bytes) : resp := RError (sanitize t).
+  Definition direct_call (s : state) (parts : list bytes) : state * resp :=
+    match parse_cmd parts with
+    | POk c => exec s c
+    | PErr t => (s, err_reply t)
+    | PPanic => (s, err_reply [])
+    end.
+  (* EVAL "return redis.pcall(...)": translate, execute, convert to Lua, convert the script's
+     return value back *)
+  Definition script_call (s : state) (parts : list bytes) : state * resp :=
+    match lua_parse parts with
+    | POk c => let '(s', r) := exec s c in (s', conv r)
+    | PErr t => (s, conv (RError t))
+    | PPanic => (s, err_reply [])
+    end.
+End Script.
